@@ -28,6 +28,57 @@ def _anc(node):
         p = getattr(p, "_parent", None)
 
 
+def lock_level_protocol(chk: Check):
+    tree = chk.tree
+    # level protocol of Lock: acquire at level 0 -> level 1 and _acquire(); release at level 1 (not detached) -> level 0 and _release();
+    # the two must agree, otherwise a lock is never taken (jobs run without holding their tokens) or never given back
+    from ..cfg import T
+    from ..dataflow import walk_table
+
+    def level_table(fn_, call_text, level_test, extra):
+        g_ = CFG(fn_.node)
+
+        def classify(n):
+            t_ = src(n.ast)
+            if t_ == level_test:
+                return ("level", True)
+            return extra.get(t_)
+
+        def events(n):
+            out = []
+            if any(src(c) == call_text for c in n.calls()):
+                out.append("call")
+            if n.kind == "stmt" and isinstance(n.ast, ast.AugAssign) and src(n.ast.target) == "self._level" and isinstance(n.ast.value, ast.Constant) and n.ast.value.value == 1:
+                out.append("+1" if isinstance(n.ast.op, ast.Add) else "-1")
+            elif n.kind == "stmt" and isinstance(n.ast, (ast.Assign, ast.AugAssign)) and any(src(t_) == "self._level" for t_ in (n.ast.targets if isinstance(n.ast, ast.Assign) else [n.ast.target])):
+                out.append("level:" + src(n.ast))
+            return out
+
+        return g_, classify, events
+
+    rel = tree.func("locking", "Lock.release")
+    g, cl, ev = level_table(rel, "self._release()", T("self._level == 1"), {"self.detached": ("detached", True)})
+    bad = []
+    for level, det in ((True, False), (True, True), (False, False), (False, True)):
+        for o in walk_table(g, g.entry, cl, {"level": level, "detached": det}, ev, lambda n: "exit" if n is g.exit else None):
+            want = ["-1", "call"] if level and not det else []
+            if sorted(o.events) != sorted(want) or o.unknown:
+                bad.append(f"held once={level}, detached={det}: {list(o.events)}")
+    chk.require(not bad, chk.fkey(rel, "release -> _release"), f"Lock.release must, exactly when the lock is held (level 1) and not detached, go back to level 0 and call _release(); found {bad}", chk.loc(rel.module, rel.node))
+    acq = tree.func("locking", "Lock.acquire")
+    ga, cl, ev = level_table(acq, "self._acquire()", T("self._level == 0"), {})
+    bad = []
+    for level in (True, False):
+        for o in walk_table(ga, ga.entry, cl, {"level": level}, ev, lambda n: "exit" if n is ga.exit else None):
+            want = ["+1", "call"] if level else []
+            if sorted(o.events) != sorted(want) or o.unknown:
+                bad.append(f"free={level}: {list(o.events)}")
+    rets = [x for x in body_walk(acq.node) if isinstance(x, ast.Return)]
+    ok = not bad and rets and all(x.value is not None and src(x.value) == "self" for x in rets) and ga.on_every_path([n for n in ga.live if n.kind == "stmt" and isinstance(n.ast, ast.Return)])
+    chk.require(ok, chk.fkey(acq, "acquire -> _acquire"), f"Lock.acquire must, exactly when the lock is free (level 0), go to level 1 and call _acquire(), and return the lock itself (it is what `locks.append(...)` records); found {bad}",
+                chk.loc(acq.module, acq.node))
+
+
 def r1_pairing(chk: Check):
     tree = chk.tree
     n = 0
@@ -59,18 +110,7 @@ def r1_pairing(chk: Check):
     chk.require(any(src(c) == "self.locks.append(lock)" for c in fn_calls(la.node)), chk.fkey(la, "append"), "Locks.append must record the lock", chk.loc(la.module, la.node))
     ex = tree.func("locking", "Lock.__exit__")
     chk.require(any(src(c) == "self.release()" for c in fn_calls(ex.node)), chk.fkey(ex, "exit releases"), "Lock.__exit__ must call release()", chk.loc(ex.module, ex.node))
-    rel = tree.func("locking", "Lock.release")
-    g = CFG(rel.node)
-    calls = g.call_nodes(lambda c: src(c) == "self._release()")
-    ok = len(calls) == 1
-    if ok:
-        gs = sorted((src(t.ast), pol) for t, pol in g.guards(calls[0][0]) if t.kind == "test")
-        ok = gs == [("self._level == 1", True), ("self.detached", False)]
-    chk.require(ok, chk.fkey(rel, "release -> _release"), "Lock.release must call _release() when the lock is held (level 1) and not detached", chk.loc(rel.module, rel.node))
-    acq = tree.func("locking", "Lock.acquire")
-    ga = CFG(acq.node)
-    ca = ga.call_nodes(lambda c: src(c) == "self._acquire()")
-    chk.require(len(ca) == 1, chk.fkey(acq, "acquire -> _acquire"), "Lock.acquire must call _acquire()", chk.loc(acq.module, acq.node))
+    lock_level_protocol(chk)
     tl = tree.func("tokens", "CounterTokenLock._release")
     chk.require(any(src(c) == "self.dependency.token.release(self.dependency)" for c in fn_calls(tl.node)), chk.fkey(tl, "token release"), "CounterTokenLock._release must release the token", chk.loc(tl.module, tl.node))
     # the Locks object enters with level 1 so that __exit__ releases: `with Locks() as locks` -> __enter__ -> acquire
